@@ -177,7 +177,11 @@ pub fn run_check(replay: Option<Value>) -> i32 {
                 for ji in 0..2 {
                     for shape in 0..2usize {
                         for backward in [false, true] {
-                            jobs.push((mi, *m, fi, ti, ji, shape, backward));
+                            jobs.push((mi, *m, fi, ti, ji, shape, backward, 1.0f64));
+                        }
+                        if shape == 0 {
+                            // the same homogeneous system with states of size -1e9 (atol scaled alike)
+                            jobs.push((mi, *m, fi, ti, ji, shape, false, -1e9f64));
                         }
                     }
                 }
@@ -185,8 +189,8 @@ pub fn run_check(replay: Option<Value>) -> i32 {
         }
     }
     let outs = par_map(jobs.len(), |j| {
-        let (mi, m, fi, ti, ji, shape, backward) = jobs[j];
-        let key = format!("ladder:{}.{}.{}.{}{}{}", mi, fi, ti, ji, if shape == 1 { ".v" } else { "" }, if backward { ".b" } else { "" });
+        let (mi, m, fi, ti, ji, shape, backward, scale) = jobs[j];
+        let key = format!("ladder:{}.{}.{}.{}{}{}{}", mi, fi, ti, ji, if shape == 1 { ".v" } else { "" }, if backward { ".b" } else { "" }, if scale != 1.0 { ".s" } else { "" });
         if let Some(o) = &only {
             if *o != key {
                 return None;
@@ -202,12 +206,17 @@ pub fn run_check(replay: Option<Value>) -> i32 {
             // backward: the time-reflected problem integrated from 0 to -span (the same stable dynamics)
             let p = if backward { reflect(&(fam.make)(k)) } else { (fam.make)(k) };
             let xend = if backward { -fam.span } else { fam.span };
+            if scale != 1.0 && !p.linear_homogeneous {
+                return None;
+            }
+            let asc = scale.abs();
+            let y0s: Vec<f64> = p.y0.iter().map(|v| v * scale).collect();
             // (a per-component atol below 1e-14 on components of size one asks for less than the rounding
             // noise eps*k*|y| of the stiff right-hand side itself: not a valid request)
             if shape == 1 && (p.n < 2 || tol * 1e-6 < 1e-14) {
                 return None;
             }
-            let mut c = Cfg::new(m, 0.0, xend, &p.y0).tol(tol, tol * 1e-2);
+            let mut c = Cfg::new(m, 0.0, xend, &y0s).tol(tol, tol * 1e-2 * asc);
             // shape 1: per-component tolerances with different atol/rtol ratios (odd components 1e4 tighter)
             let atolv: Vec<f64> = (0..p.n).map(|i| if shape == 1 && i % 2 == 1 { tol * 1e-6 } else { tol * 1e-2 }).collect();
             if shape == 1 {
@@ -243,7 +252,7 @@ pub fn run_check(replay: Option<Value>) -> i32 {
                             for i in 0..p.n {
                                 // per-component tolerances are judged against the component's own size
                                 let sc = if shape == 1 { atolv[i] + tol * e[i].abs() } else { tol * 1e-2 + tol * ynorm };
-                                err = err.max((y[i] - e[i]).abs() / sc);
+                                err = err.max((y[i] / scale - e[i]).abs() / sc);
                             }
                         }
                         let _ = ex;
@@ -255,7 +264,7 @@ pub fn run_check(replay: Option<Value>) -> i32 {
                     }
                     if fam.invariant_sum {
                         let s0: f64 = p.y0.iter().sum();
-                        let worst = s.y.iter().map(|y| (y.iter().sum::<f64>() - s0).abs()).fold(0.0, f64::max);
+                        let worst = s.y.iter().map(|y| (y.iter().sum::<f64>() / scale - s0).abs()).fold(0.0, f64::max);
                         // with the exact Jacobian every Newton iterate preserves the invariant, so it
                         // holds to rounding; a finite-difference Jacobian has column sums that are only
                         // approximately zero, which leaks (J error) x (Newton residual): tolerance scale
@@ -282,7 +291,7 @@ pub fn run_check(replay: Option<Value>) -> i32 {
                 _ => viols.push(("outcome".into(), format!("k={:e}: run ended with {}", k, r.outcome_name()))),
             }
         }
-        let desc = json!({"key": key, "method": mname(m), "family": fam.name, "tol": tol, "jacobian": if ji == 0 { "user" } else { "finite-difference" }, "direction": if backward { "backward (reflected)" } else { "forward" }, "tolerances": if shape == 1 { "per component (odd components: atol 1e4 times tighter)" } else { "scalar" }, "ladder": rows});
+        let desc = json!({"key": key, "method": mname(m), "family": fam.name, "tol": tol, "jacobian": if ji == 0 { "user" } else { "finite-difference" }, "state_scale": scale, "direction": if backward { "backward (reflected)" } else { "forward" }, "tolerances": if shape == 1 { "per component (odd components: atol 1e4 times tighter)" } else { "scalar" }, "ladder": rows});
         for (c, msg) in viols {
             out.violations.push(Violation::new(&key, &c, msg, desc.clone()).with("method", mname(m)).with("family", fam.name.split('(').next().unwrap_or("")));
         }
